@@ -57,6 +57,11 @@ CHECKS["C20"] = ("fault_enumeration",
   "160/1600 topologies x failure sequences: 1-5 nodes in any order, one or two masters appearing from probe round 1..7 or never, every other round drawn from {replica, connection refused, accept-and-drop, -ERR, -LOADING, INFO without a role line (incl. decoy 'role:master' inside another line), non-RESP garbage, integer reply}. The chosen Source must report master in the round it was chosen, Slaves must be every other known node exactly once, an error must be returned iff no node reported master within 1+6 rounds, no node is probed more than 7 times, descriptor fields are preserved. No-master cases wait out the real 21 s back-off (cases run concurrently).",
   "Trusted: the fake nodes and the round = connection-count assumption. Silent nodes (accept, never answer) are not generated (no read timeout; not in the statement's fault list).", "DESIGN.md §5/C20")
 
+CHECKS["C07"] = ("exploration",
+  "schedule-controlling model target: loopback model Redis whose scheduler decides which worker connection's pending command is applied next; exactly-once / right-database / completion-at-return / failure-reported oracles over the per-connection command log; Go race detector",
+  "144/2400 runs of the real syncRDBFile (hook) and CmdRestore.Main over generated RDBs (50-400 keys over 1-6 databases with SELECTDB alternating between consecutive keys, lua scripts in between) with parallel in {1,2,3,8,32}, target.db in {-1,2}, key/db black/white lists and five scheduler policies (random, round-robin, starve-one, newest/oldest-first); at the moment the call returns every expected (db,key) must have been restored exactly once in the right database with the source value, nothing may arrive later, scripts are loaded once each; one run in six injects an error reply or BUSYKEY on a chosen key and the run must report it (returned error / non-successful process end). Evidence counts distinct interleaving signatures and the maximum number of simultaneously pending connections. One scenario per run holds the first chunk's DEL of a 36 MiB hash back (recorded known finding).",
+  "Trusted: lib/miniredis and its scheduler (the settle time only shapes interleavings; no verdict depends on it). One RESTORE per key (no quicklists, threshold above every payload).", "DESIGN.md §5/C07")
+
 PENDING_REASON = "monitor not built yet in this revision of /verif (planned in DESIGN.md §5); no claim is made"
 
 def main():
